@@ -141,6 +141,17 @@ def cases(tier):
         for fi in range(len(FILTERS)):
             for tgt in TARGETS[base_of(fname)]:
                 out.append(dict(kind='cli', file=fname, filter=fi, target=tgt))
+    # a species filter together with one edit of the file (--override-item / --remove-item / --add-item): the edit is made first
+    for fname in ('pair', 'eam', 'fs'):
+        first = get_file(fname).section('Pair')[1]
+        edits = [['O', 'Pair', first[0][0], '>=0 as.polynomial 7.5 -0.25'], ['X', 'Pair', first[1][0]], ['A', 'Pair', 'X-A', '>=0 as.polynomial 6.5 0.5'],
+                 ['A', 'Pair', 'C-B' if fname != 'pair' else 'X-X', '>=0 as.polynomial 5.5 0.25']]
+        if fname != 'pair':
+            dk = get_file(fname).section('EAM-Density')[1][0][0]
+            edits += [['O', 'EAM-Density', dk, '>=0 as.polynomial 0.5 0.125'], ['X', 'EAM-Density', dk]]
+        for fi in range(len(FILTERS)):
+            for e in edits:
+                out.append(dict(kind='cli', file=fname, filter=fi, target=TARGETS[fname][fi % len(TARGETS[fname])], edit=e))
     return out
 
 
@@ -264,9 +275,16 @@ def run_cli(case):
     ini.section('Tabulation')[1][0][1] = tgt
     if tgt == 'DLPOLY':
         ini.section('Tabulation')[1][1][1] = '8'
-    edited = filter_species(ini, S, mode == 'exclude')
     binary = tgt.startswith('excel')
     args = ['--%s-species' % mode] + list(S)
+    e = case.get('edit')
+    base = ini
+    if e:
+        from ..initext import override, remove, add
+        base = ini.copy()
+        {'O': lambda: override(base, e[1], e[2], e[3]), 'X': lambda: remove(base, e[1], e[2]), 'A': lambda: add(base, e[1], e[2], e[3])}[e[0]]()
+        args += [{'O': '-e', 'X': '-r', 'A': '-a'}[e[0]], '%s:%s%s' % (e[1], e[2], '=' + e[3] if e[0] != 'X' else '')]
+    edited = filter_species(base, S, mode == 'exclude')
     got = R.potable(ini.render(), args=args, binary=binary)
     want = R.potable(edited.render(), binary=binary)
     viol = []
